@@ -170,14 +170,19 @@ def minify(
         rename_globals = False
         rename_locals = False
 
+    # The preserve lists are extended below, so always work on a copy of what the caller passed
     if preserve_locals is None:
         preserve_locals = []
     elif isinstance(preserve_locals, str):
         preserve_locals = [preserve_locals]
+    else:
+        preserve_locals = list(preserve_locals)
     if preserve_globals is None:
         preserve_globals = []
     elif isinstance(preserve_globals, str):
         preserve_globals = [preserve_globals]
+    else:
+        preserve_globals = list(preserve_globals)
 
     preserve_locals.extend(module.preserved)
     preserve_globals.extend(module.preserved)
